@@ -752,8 +752,12 @@ def check_builder_required(ctx: Ctx) -> None:
     n = 0
     for mname, m in sorted(cls.methods.items()):
         cfg = cfg_of(m)
-        clears = [c for c in walk_body(m) if isinstance(c, ast.Call) and isinstance(c.func, ast.Attribute) and c.func.attr == "clear" and isinstance(c.func.value, ast.Attribute) and c.func.value.attr == "required" and is_builder(c.func.value.value) and dotted(c.func.value.value.value) == "self"]
-        clear_nodes = {cfg.node_of(c) for c in clears}
+        clears = [c for c in walk_body(m) if isinstance(c, ast.Call) and isinstance(c.func, ast.Attribute) and c.func.attr == "clear" and isinstance(c.func.value, ast.Attribute) and c.func.value.attr == "required" and is_builder(c.func.value.value) and isinstance(c.func.value.value.value, ast.Name)]
+        # the builder of this grammar, or of another grammar the method is filling (the copy made by _copy)
+        clear_nodes_of = {}
+        for c in clears:
+            clear_nodes_of.setdefault(c.func.value.value.value.id, set()).add(cfg.node_of(c))
+        clear_nodes = clear_nodes_of.get("self", set())
         for c in walk_body(m):
             if not (isinstance(c, ast.Call) and isinstance(c.func, ast.Attribute)):
                 continue
@@ -766,7 +770,7 @@ def check_builder_required(ctx: Ctx) -> None:
             feeds = None
             if c.func.attr == "add_object" and is_builder(recv) and dotted(recv.value) == "self":
                 feeds = "add_object makes every key required"
-            elif c.func.attr == "add_schema" and is_builder(recv) and dotted(recv.value) == "self" and c.args:
+            elif c.func.attr == "add_schema" and is_builder(recv) and isinstance(recv.value, ast.Name) and c.args:
                 # under the conditions of the call (a conditional expression decided by the same test is resolved)
                 alts = (_objects if isinstance(c.args[0], ast.Name) else _alternatives)(m, c.args[0], literal_facts(cfg, cfg.node_of(c)))
                 harmless = all(
@@ -783,7 +787,9 @@ def check_builder_required(ctx: Ctx) -> None:
                 continue
             n += 1
             cn = cfg.node_of(c)
-            esc = cfg.escape_path(cn, clear_nodes) if clear_nodes else [cn]
+            owner = recv.value.id if isinstance(recv, ast.Attribute) and isinstance(recv.value, ast.Name) else (recv.value.value.id if isinstance(recv, ast.Attribute) and isinstance(recv.value, ast.Attribute) and isinstance(recv.value.value, ast.Name) else "self")
+            own_clears = clear_nodes_of.get(owner, set())
+            esc = cfg.escape_path(cn, own_clears) if own_clears else [cn]
             ctx.ob("15.8-builder-required", cname(JG, "JSONGrammar", mname), esc is None, f"{feeds}, and a path leaves {mname} without `self.__schema_builder.required.clear()`: the names stay in the builder and are exported as required by every later schema / to_json / pickled state, whatever `required_names` says", node=c)
     ctx.floor("15.8-builder-required", 5)
     # the required names of an imported schema are read from the schema: the builder intersects them with its own
